@@ -15,7 +15,10 @@
    stored under the key at that moment. Three scheduler-visible points: started (AFire), clock
    read (ACbBegin), locked delete (ACbEnd). Everything else runs under cp.mutex and is atomic.
 
-   Time is Z nanoseconds since the virtual epoch. Template contents are abstracted to a tag. *)
+   Time is Z nanoseconds since the virtual epoch. Template contents are abstracted to a tag.
+   The clock may move (by the constant `tick` of the state) after each clock operation that
+   addTemplate performs: the timer is armed from a later reading than expiryTime was computed
+   from, as with a real clock; tick = 0 is a clock that stands still inside addTemplate. *)
 From Coq Require Import List Bool Arith NArith ZArith Lia.
 Import ListNotations.
 Local Open Scope Z_scope.
